@@ -123,4 +123,121 @@ theorem stepped_repr (sec : Int) (nsec every stepns k : Nat) (hs : timeBase ≤ 
   simp only [steppedClock, unixNorm, hx, timeBase]
   omega
 
+/-! ### `firstDup` (the driver's duplicate search) is correct -/
+
+
+theorem clockKey_lt (u : List UInt8) : clockKey u < 16384 := by
+  unfold clockKey
+  rw [or_shl _ 8 _ (byteAt u 9).toNat_lt, low6_eq_mod]
+  have := (byteAt u 9).toNat_lt
+  omega
+
+theorem getD_set {α} (bk : Array (List α)) (b b' : Nat) (v : List α) (hb : b < bk.size) :
+    (bk.setIfInBounds b v).getD b' [] = if b' = b then v else bk.getD b' [] := by
+  simp only [Array.getD_eq_getD_getElem?, Array.getElem?_setIfInBounds]
+  by_cases h : b' = b
+  · subst h; simp [hb]
+  · have : ¬ b = b' := fun e => h e.symm
+    simp [h, this]
+
+structure BInv (pre : List (List UInt8)) (bk : Array (List (List UInt8 × Nat))) : Prop where
+  size : bk.size = 16384
+  sound : ∀ b e, e ∈ bk.getD b [] → pre[e.2]? = some e.1
+  complete : ∀ m (h : m < pre.length), (pre[m], m) ∈ bk.getD (clockKey pre[m]) []
+
+theorem firstDupAux_spec (us : List (List UInt8)) : ∀ (pre : List (List UInt8)) (bk : Array (List (List UInt8 × Nat))),
+    BInv pre bk → pre.Pairwise (· ≠ ·) →
+    (∀ i j, firstDupAux us pre.length bk = some (i, j) →
+        i < j ∧ ∃ u, (pre ++ us)[i]? = some u ∧ (pre ++ us)[j]? = some u) ∧
+    (firstDupAux us pre.length bk = none → (pre ++ us).Pairwise (· ≠ ·)) := by
+  induction us with
+  | nil =>
+    intro pre bk _ hp
+    exact ⟨by intro i j h; simp [firstDupAux] at h, by intro _; simpa using hp⟩
+  | cons u us ih =>
+    intro pre bk inv hp
+    cases hf : (bk.getD (clockKey u) []).find? (fun e => e.1 == u) with
+    | some e =>
+      have hmem := List.mem_of_find?_eq_some hf
+      have heq : e.1 = u := by simpa using List.find?_some hf
+      have hs := inv.sound _ e hmem
+      have hlt : e.2 < pre.length := by
+        rcases Nat.lt_or_ge e.2 pre.length with h | h
+        · exact h
+        · rw [List.getElem?_eq_none h] at hs; cases hs
+      constructor
+      · intro i j h
+        simp only [firstDupAux, hf, Option.some.injEq, Prod.mk.injEq] at h
+        obtain ⟨rfl, rfl⟩ := h
+        refine ⟨hlt, u, ?_, ?_⟩
+        · rw [List.getElem?_append_left hlt, hs, heq]
+        · simp
+      · intro h; simp only [firstDupAux, hf] at h; cases h
+    | none =>
+      have hnot : ∀ e ∈ bk.getD (clockKey u) [], e.1 ≠ u := by
+        intro e he h
+        have := List.find?_eq_none.mp hf e he
+        simp [h] at this
+      have hfresh : ∀ v ∈ pre, v ≠ u := by
+        intro v hv h
+        obtain ⟨m, hm, rfl⟩ := List.getElem_of_mem hv
+        have := inv.complete m hm
+        rw [h] at this
+        exact hnot _ this rfl
+      have hb : clockKey u < bk.size := by rw [inv.size]; exact clockKey_lt u
+      have inv' : BInv (pre ++ [u]) (bk.setIfInBounds (clockKey u) ((u, pre.length) :: bk.getD (clockKey u) [])) := by
+        refine ⟨by simp [inv.size], ?_, ?_⟩
+        · intro b e he
+          rw [getD_set _ _ _ _ hb] at he
+          have old : ∀ e, e ∈ bk.getD b [] → (pre ++ [u])[e.2]? = some e.1 := by
+            intro e he
+            have hs := inv.sound b e he
+            have hlt : e.2 < pre.length := by
+              rcases Nat.lt_or_ge e.2 pre.length with h | h
+              · exact h
+              · rw [List.getElem?_eq_none h] at hs; cases hs
+            rw [List.getElem?_append_left hlt, hs]
+          by_cases hbb : b = clockKey u
+          · rw [if_pos hbb] at he
+            rcases List.mem_cons.mp he with rfl | he
+            · simp
+            · exact old e (hbb ▸ he)
+          · rw [if_neg hbb] at he
+            exact old e he
+        · intro m hm
+          rw [getD_set _ _ _ _ hb]
+          simp only [List.length_append, List.length_singleton] at hm
+          rcases Nat.lt_or_ge m pre.length with hlt | hge
+          · have hg : (pre ++ [u])[m] = pre[m] := List.getElem_append_left hlt
+            rw [hg]
+            have := inv.complete m hlt
+            by_cases hk : clockKey pre[m] = clockKey u
+            · rw [if_pos hk]; exact List.mem_cons_of_mem _ (hk ▸ this)
+            · rw [if_neg hk]; exact this
+          · have hm' : m = pre.length := by omega
+            subst hm'
+            simp
+      have hp' : (pre ++ [u]).Pairwise (· ≠ ·) := by
+        rw [List.pairwise_append]
+        exact ⟨hp, by simp, by intro a ha b hb; simp at hb; subst hb; exact hfresh a ha⟩
+      have := ih (pre ++ [u]) _ inv' hp'
+      simp only [List.length_append, List.length_singleton, List.append_assoc, List.singleton_append] at this
+      constructor
+      · intro i j h
+        simp only [firstDupAux, hf] at h
+        exact this.1 i j h
+      · intro h
+        simp only [firstDupAux, hf] at h
+        exact this.2 h
+
+theorem firstDup_spec (us : List (List UInt8)) :
+    (∀ i j, firstDup us = some (i, j) → i < j ∧ ∃ u, us[i]? = some u ∧ us[j]? = some u) ∧
+    (firstDup us = none → us.Pairwise (· ≠ ·)) := by
+  have inv : BInv [] (Array.replicate 16384 ([] : List (List UInt8 × Nat))) := by
+    refine ⟨by simp, ?_, by intro m h; cases h⟩
+    intro b e he
+    simp [Array.getD_eq_getD_getElem?, Array.getElem?_replicate] at he
+    split at he <;> simp at he
+  simpa [firstDup] using firstDupAux_spec us [] _ inv List.Pairwise.nil
+
 end Uuid
